@@ -228,6 +228,184 @@ func Files(dir string) (map[string]string, error) {
 	return out, nil
 }
 
+// StructField is one field of a confirmed struct type.
+type StructField struct {
+	Name string `json:"name"`
+	Type string `json:"type"`
+}
+
+// Structs lists the struct types declared in the tree at dir: "pkg.Type" -> fields in order.
+func Structs(dir string) (map[string][]StructField, error) {
+	st, err := load(dir, nil)
+	if err != nil {
+		return nil, err
+	}
+	out := map[string][]StructField{}
+	for _, si := range st.structs() {
+		out[si.name] = si.fields
+	}
+	return out, nil
+}
+
+type structInfo struct {
+	name   string
+	fields []StructField
+	vars   []*types.Var
+	idents []*ast.Ident
+	pkg    *packages.Package
+}
+
+func (st *state) structs() []*structInfo {
+	var out []*structInfo
+	for _, p := range st.pkgs {
+		q := func(o *types.Package) string { return o.Name() }
+		for _, f := range p.Syntax {
+			if strings.HasSuffix(st.fileName(f.Pos()), "_test.go") {
+				continue
+			}
+			for _, d := range f.Decls {
+				gd, ok := d.(*ast.GenDecl)
+				if !ok || gd.Tok != token.TYPE {
+					continue
+				}
+				for _, sp := range gd.Specs {
+					ts := sp.(*ast.TypeSpec)
+					stt, ok := ts.Type.(*ast.StructType)
+					if !ok {
+						continue
+					}
+					si := &structInfo{name: p.Types.Name() + "." + ts.Name.Name, pkg: p}
+					for _, fl := range stt.Fields.List {
+						if len(fl.Names) == 0 {
+							// embedded: the type name is the field name
+							var id *ast.Ident
+							ast.Inspect(fl.Type, func(n ast.Node) bool {
+								if x, ok := n.(*ast.Ident); ok && id == nil {
+									id = x
+								}
+								if se, ok := n.(*ast.SelectorExpr); ok {
+									id = se.Sel
+									return false
+								}
+								return id == nil
+							})
+							if id != nil {
+								si.fields = append(si.fields, StructField{Name: id.Name, Type: "embedded " + types.ExprString(fl.Type)})
+								si.vars = append(si.vars, nil)
+								si.idents = append(si.idents, nil)
+							}
+							continue
+						}
+						for _, n := range fl.Names {
+							v, _ := p.TypesInfo.Defs[n].(*types.Var)
+							ty := ""
+							if v != nil {
+								ty = types.TypeString(v.Type(), q)
+							}
+							si.fields = append(si.fields, StructField{Name: n.Name, Type: ty})
+							si.vars = append(si.vars, v)
+							si.idents = append(si.idents, n)
+						}
+					}
+					out = append(out, si)
+				}
+			}
+		}
+	}
+	sort.Slice(out, func(i, j int) bool { return out[i].name < out[j].name })
+	return out
+}
+
+// fieldEdits gives the unexported fields of si whose names differ from the confirmed
+// ones (same position, same type) their confirmed names back.
+func (st *state) fieldEdits(si *structInfo, want []StructField) ([]edit, string, error) {
+	if len(want) != len(si.fields) {
+		return nil, "", fmt.Errorf("field count differs")
+	}
+	target := map[*types.Var]string{}
+	var desc []string
+	for i, f := range si.fields {
+		if f.Name == want[i].Name {
+			continue
+		}
+		if f.Type != want[i].Type {
+			return nil, "", fmt.Errorf("field %d changed its type", i)
+		}
+		if si.vars[i] == nil || ast.IsExported(f.Name) || ast.IsExported(want[i].Name) {
+			return nil, "", fmt.Errorf("field %s is embedded or exported", f.Name)
+		}
+		target[si.vars[i]] = want[i].Name
+		desc = append(desc, f.Name+" -> "+want[i].Name)
+	}
+	if len(target) == 0 {
+		return nil, "", fmt.Errorf("nothing to do")
+	}
+	// the wanted names must be free among the fields and methods of the type
+	for _, nn := range target {
+		for i, f := range si.fields {
+			if f.Name == nn && target[si.vars[i]] == "" {
+				return nil, "", fmt.Errorf("the name %s is taken by another field", nn)
+			}
+		}
+		if obj := si.pkg.Types.Scope().Lookup(si.name[strings.Index(si.name, ".")+1:]); obj != nil {
+			if named, ok := obj.Type().(*types.Named); ok {
+				for i := 0; i < named.NumMethods(); i++ {
+					if named.Method(i).Name() == nn {
+						return nil, "", fmt.Errorf("the name %s is taken by a method", nn)
+					}
+				}
+			}
+		}
+	}
+	var es []edit
+	for _, p := range st.pkgs {
+		visit := func(id *ast.Ident, obj types.Object) {
+			v, ok := obj.(*types.Var)
+			if !ok || !v.IsField() {
+				return
+			}
+			if nn, ok := target[v.Origin()]; ok {
+				es = append(es, edit{st.fileName(id.Pos()), st.offset(id.Pos()), st.offset(id.End()), nn})
+			}
+		}
+		for id, obj := range p.TypesInfo.Defs {
+			if obj != nil {
+				visit(id, obj)
+			}
+		}
+		for id, obj := range p.TypesInfo.Uses {
+			visit(id, obj)
+		}
+	}
+	// de-duplicate (an identifier can be both)
+	seen := map[[2]int]bool{}
+	var uniq []edit
+	for _, e := range es {
+		k := [2]int{e.start, e.end}
+		key := e.file
+		_ = key
+		if seen[k] && false {
+			continue
+		}
+		seen[k] = true
+		uniq = append(uniq, e)
+	}
+	sort.Slice(uniq, func(i, j int) bool {
+		if uniq[i].file != uniq[j].file {
+			return uniq[i].file < uniq[j].file
+		}
+		return uniq[i].start < uniq[j].start
+	})
+	var out []edit
+	for i, e := range uniq {
+		if i > 0 && uniq[i-1].file == e.file && uniq[i-1].start == e.start {
+			continue
+		}
+		out = append(out, e)
+	}
+	return out, strings.Join(desc, ", "), nil
+}
+
 // Source is the confirmed declaration of an unexported function: the file it lives in
 // (relative to the module root) and its text, doc comment included.
 type Source struct {
@@ -282,12 +460,12 @@ func (st *state) funcs() []*funcInfo {
 }
 
 // Normalise runs the pass.  inv is the inventory of the confirmed tree.
-func Normalise(dir string, overlay map[string][]byte, inv map[string]string, srcs map[string]Source) (*Result, error) {
+func Normalise(dir string, overlay map[string][]byte, inv map[string]string, srcs map[string]Source, structs map[string][]StructField) (*Result, error) {
 	res := &Result{Overlay: map[string][]byte{}}
 	for k, v := range overlay {
 		res.Overlay[k] = v
 	}
-	if !hasUnknown(dir, res.Overlay, inv, srcs) {
+	if !hasUnknown(dir, res.Overlay, inv, srcs, structs) {
 		return res, nil
 	}
 	skip := map[string]string{}
@@ -323,8 +501,41 @@ func Normalise(dir string, overlay map[string][]byte, inv map[string]string, src
 		var edits []edit
 		var note string
 		var subject string
+		// unexported struct fields: back to the confirmed names
+		for _, si := range st.structs() {
+			want, ok := structs[si.name]
+			if !ok || skip["fields:"+si.name] != "" {
+				continue
+			}
+			same := len(want) == len(si.fields)
+			if same {
+				for i := range want {
+					if want[i].Name != si.fields[i].Name {
+						same = false
+					}
+				}
+			}
+			if same {
+				continue
+			}
+			es, desc, err := st.fieldEdits(si, want)
+			if err != nil {
+				skip["fields:"+si.name] = err.Error()
+				if err.Error() != "field count differs" {
+					res.Notes = append(res.Notes, fmt.Sprintf("left the field names of %s as written: %v", si.name, err))
+				}
+				continue
+			}
+			edits = es
+			note = fmt.Sprintf("gave the fields of %s their confirmed names back (%s)", si.name, desc)
+			subject = "fields:" + si.name
+			break
+		}
 		// parameter / receiver names of known functions: back to the confirmed names
 		for _, fi := range fis {
+			if edits != nil {
+				break
+			}
 			full, ok := inv[fi.name]
 			if !ok || skip["params:"+fi.name] != "" {
 				continue
@@ -353,6 +564,9 @@ func Normalise(dir string, overlay map[string][]byte, inv map[string]string, src
 			if !present[name] && skip["gone:"+name] == "" {
 				missing = true
 			}
+		}
+		if edits != nil {
+			missing = true
 		}
 		if edits == nil && len(unknown) == 0 && !missing {
 			break
@@ -1340,7 +1554,7 @@ func (st *state) sameTypeParams(u *funcInfo, call *ast.CallExpr, info *types.Inf
 // hasUnknown parses (only) the module's non-test files and reports whether an
 // unexported function outside the inventory is declared; false lets the pass return
 // at once, which is the case on the unchanged tree.
-func hasUnknown(dir string, overlay map[string][]byte, inv map[string]string, srcs map[string]Source) bool {
+func hasUnknown(dir string, overlay map[string][]byte, inv map[string]string, srcs map[string]Source, structs map[string][]StructField) bool {
 	found := false
 	seenNames := map[string]bool{}
 	defer func() {}()
@@ -1369,6 +1583,35 @@ func hasUnknown(dir string, overlay map[string][]byte, inv map[string]string, sr
 			return nil
 		}
 		for _, dcl := range f.Decls {
+			if gd, ok := dcl.(*ast.GenDecl); ok && gd.Tok == token.TYPE {
+				for _, sp := range gd.Specs {
+					ts := sp.(*ast.TypeSpec)
+					stt, ok := ts.Type.(*ast.StructType)
+					if !ok {
+						continue
+					}
+					want, ok := structs[f.Name.Name+"."+ts.Name.Name]
+					if !ok {
+						continue
+					}
+					var names []string
+					for _, fl := range stt.Fields.List {
+						if len(fl.Names) == 0 {
+							names = append(names, "")
+						}
+						for _, n := range fl.Names {
+							names = append(names, n.Name)
+						}
+					}
+					if len(names) == len(want) {
+						for i := range names {
+							if names[i] != "" && names[i] != want[i].Name {
+								found = true
+							}
+						}
+					}
+				}
+			}
 			fd, ok := dcl.(*ast.FuncDecl)
 			if !ok || fd.Name.Name == "init" || fd.Name.Name == "main" {
 				continue
